@@ -194,6 +194,13 @@ def nest_strategy():
                     if kind == 'function':
                         fn_names |= bound_here - declared
                     out += body(ind + '    ', depth + 1, 'class', fn_names)
+                elif c == 6 and draw(st.booleans()) and depth < 5:
+                    # siblings without locals of their own: a pure reader and one that only declares a global
+                    g = draw(st.sampled_from(POOL))
+                    order = draw(st.booleans())
+                    reader = [ind + 'def rd%d():' % depth, ind + '    return (%s, %s)' % (g, draw(st.sampled_from(POOL)))]
+                    glob = [ind + 'def gl%d():' % depth, ind + '    global %s' % g, ind + '    return %s' % g]
+                    out += (reader + glob) if order else (glob + reader)
                 elif c == 6:
                     p = draw(st.sampled_from(POOL))
                     q = draw(st.sampled_from(POOL))
@@ -205,6 +212,17 @@ def nest_strategy():
                                                  'g%d = {%s: %s for %s in range(2)}', 'g%d = list((%s, %s) for %s in range(2) if %s)']))
                     args = (depth, v, w, v) if form.count('%s') == 3 else (depth, v, w, v, w)
                     out.append(ind + form % args)
+                elif c == 8 and draw(st.booleans()) and kind != 'class':
+                    # a walrus inside a comprehension binds in the enclosing function (PEP 572), its iteration variable does not
+                    v = draw(st.sampled_from(POOL))
+                    w = draw(st.sampled_from([p_ for p_ in POOL if p_ != v]))
+                    form = draw(st.sampled_from(['w%d = [%s for %s in range(2) if (%s := %s)]', 'w%d = any((%s := %s) for %s in range(2))']))
+                    if form.count('%s') == 4:
+                        out.append(ind + form % (depth, w, v, w, v))
+                    else:
+                        out.append(ind + form % (depth, w, v, v))
+                    if w not in declared:
+                        bound_here.add(w)
                 elif c == 8:
                     nm = draw(st.sampled_from(POOL))
                     out.append(ind + 'for %s in range(1):' % nm)
